@@ -1691,6 +1691,9 @@ class SpaceUpdater(SharedSpaceOperations):
         for n in nx.descendants(self._graph, node):
             self._graph.get_mro(n)
 
+        # Check name conflict between the members of the bases
+        self._check_conflict(self._graph.get_mro(node)[1:])
+
         if container is None:
             container = parent._named_spaces
 
@@ -1721,6 +1724,23 @@ class SpaceUpdater(SharedSpaceOperations):
         self._update_manager()
 
         return space
+
+    def _check_conflict(self, mro, spaces=()):
+        """Raise NameError if a name would denote members of different kinds
+
+        ``mro``: nodes whose cells and references are inherited,
+        ``spaces``: names of the child spaces (not inherited).
+        """
+        cells, refs = set(), set()
+        for node in mro:
+            space = self._graph.to_space(node)
+            cells.update(space.cells)
+            refs.update(space.own_refs)
+
+        conflict = (cells & refs) | (cells & set(spaces)) | (
+                refs & set(spaces))
+        if conflict:
+            raise NameError("name conflict: %s" % conflict)
 
     def add_bases(self, space, bases):
         """Add bases to space in graph
@@ -1754,17 +1774,8 @@ class SpaceUpdater(SharedSpaceOperations):
             mro = self._graph.get_mro(desc)
 
             # Check name conflict between spaces, cells, refs
-            members = {}
-            for attr in ["spaces", "cells", "refs"]:
-                namechain = []
-                for sname in mro:
-                    space = self._graph.to_space(sname)
-                    namechain.append(set(getattr(space, attr).keys()))
-                members[attr] = set().union(*namechain)
-
-            conflict = set().intersection(*[n for n in members.values()])
-            if conflict:
-                raise NameError("name conflict: %s" % conflict)
+            self._check_conflict(
+                mro, self._graph.to_space(desc).named_spaces)
 
         self._instructions.append(
             Instruction(self._update_derived_space, (node,)))
